@@ -6,6 +6,7 @@
 set -u
 export GOFLAGS=-mod=mod GOPROXY=off GOSUMDB=off
 src=$1; name=$2; shift 2
+H=${VERIF_HOME:-/verif}
 wt=/tmp/ev-$name
 git -C /repo worktree remove --force $wt >/dev/null 2>&1
 git -C /repo worktree add -q --detach $wt HEAD || exit 2
@@ -20,7 +21,7 @@ if go test -count=1 ./... >/tmp/ev-$name.suite.log 2>&1; then echo "suite with c
 cp $src/demo_test.go $wt/zz_demo_test.go
 if go test $race -run 'TestDemo' -count=1 . >/tmp/ev-$name.demo.log 2>&1; then echo "demo with change: PASS (bad seed)"; else echo "demo with change: FAIL (ok)"; fi
 rm -f $wt/zz_demo_test.go
-cd /verif
+cd $H
 for p in "$@"; do
   out=$(VERIF_REPO=$wt timeout 900 ./check $p ${TIER:-quick} 2>&1); code=$?
   echo "check $p exit=$code: $(echo "$out" | grep -m1 'violation class' ) $(echo "$out" | grep -A2 -m1 'violation class' | sed -n 2p | cut -c1-200)"
@@ -28,4 +29,4 @@ for p in "$@"; do
 done
 rm -f /tmp/ev-$name.*.log
 cd /; git -C /repo worktree remove --force $wt
-tag=$(echo "$wt" | tr -c 'A-Za-z0-9' '_'); rm -rf /verif/bin/alt-$tag
+tag=$(echo "$wt" | tr -c 'A-Za-z0-9' '_'); rm -rf $H/bin/alt-$tag
